@@ -180,7 +180,7 @@ func runC11(tier, scratch, replay string, nworkers int) *merged {
 		build := func() {
 			defer wg.Done()
 			out := filepath.Join(scratch, "c11", fmt.Sprintf("bin-%s-%s.test", strings.ReplaceAll(k.depth, "/", "_"), k.build))
-			args := []string{"test", "-c", "-vet=off", "-o", out}
+			args := append([]string{"test", "-c", "-vet=off", "-o", out}, coverBuildArgs()...)
 			env := goEnv()
 			switch k.build {
 			case "trimpath-flag":
@@ -235,7 +235,8 @@ func runC11(tier, scratch, replay string, nworkers int) *merged {
 				pkgDir := filepath.Join(root, depth)
 				outFile := filepath.Join(scratch, "c11", fmt.Sprintf("results-%s-%d.jsonl", strings.ReplaceAll(depth, "/", "_"), ri))
 				os.Remove(outFile)
-				cmd := exec.Command("timeout", "-k", "5", "300", bins[bkey{r.Depth, r.Build}], "-test.count", "2", "-test.timeout", "280s", "-test.run", "^TestC11$")
+				covArgs, covPath := coverRunArg(filepath.Join(scratch, "c11"))
+				cmd := exec.Command("timeout", append([]string{"-k", "5", "300", bins[bkey{r.Depth, r.Build}], "-test.count", "2", "-test.timeout", "280s", "-test.run", "^TestC11$"}, covArgs...)...)
 				cmd.Dir = pkgDir
 				env := []string{"PATH=" + os.Getenv("PATH"), "HOME=" + os.Getenv("HOME"), "NO_COLOR=1", "C11_OUT=" + outFile, "C11_ROOT=" + filepath.Join(scratch, "c11"), "C11_ABS=" + absDir}
 				if r.Chdir {
@@ -249,6 +250,7 @@ func runC11(tier, scratch, replay string, nworkers int) *merged {
 				}
 				cmd.Env = env
 				outb, err := cmd.CombinedOutput()
+				coverMerge(covPath)
 				f, ferr := os.Open(outFile)
 				mu.Lock()
 				m.counters["runs_of_real_binary"]++
